@@ -140,6 +140,7 @@ public:
         default: { op.kind = "Singleton"; const auto h = anyH(); if (Depth(H[static_cast<size_t>(h)].ty) > 3) continue; op.n = { h }; return true; }
         }
       } else if (fam == 1) {
+        if (r.Pct(6)) { static const std::vector<int> ns{ 9, 12, 16, 20, 27, 28, 29, 30, 30 }; op.kind = "BigBoolean"; op.n = { r.Pick(ns), static_cast<int64_t>(r.Below(1u << 30)) }; return true; }   // power sets too big to enumerate: O(1) facts only
         if (sets.empty()) continue;
         if (r.Pct(50)) {
           const auto h = r.Pick(sets); if (H[h].m.items.size() > 7 || Depth(H[h].ty) > 3) continue;
@@ -259,6 +260,20 @@ public:
       for (size_t mask = 0; mask < (size_t{ 1 } << n); ++mask) { std::vector<MV> s; for (size_t i = 0; i < n; ++i) if (mask & (size_t{ 1 } << i)) s.push_back(b.m.items[i]); subs.push_back(MSet(s)); }
       if (b.lazy) c.Probe("boolean_of_lazy");
       Handle h; h.v = Factory::Boolean(b.v); h.m = MSet(subs); h.ty = "B" + b.ty; h.lazy = 1; Push(c, h, k);
+    }
+    else if (k == "BigBoolean") {
+      // a power set that cannot be enumerated (2^9 .. 2^30 elements, up to the documented limit BOOL_INFINITY = 30): cardinality, membership and a prefix of the iteration
+      const int n = static_cast<int>(std::clamp<int64_t>(op.N(0), 1, 30)); Rng rr(static_cast<uint64_t>(op.N(1)));
+      std::vector<int32_t> base; for (int i = 0; i < n; ++i) base.push_back(i);
+      const auto b = Factory::SetV(base); const auto p = Factory::Boolean(b);
+      c.Oracle("big_power_set"); c.Probe("big_power_set");
+      if (p.B().Cardinality() != (int64_t{ 1 } << n)) { c.Fail("C15", "cardinality", k, "power set of " + std::to_string(n) + " elements reports cardinality " + std::to_string(p.B().Cardinality())); return; }
+      std::vector<int32_t> sub; for (int i = 0; i < n; ++i) if (rr.Pct(40)) sub.push_back(i);
+      if (!p.B().Contains(Factory::SetV(sub))) { c.Fail("C15", "membership", k + "/subset", "a subset of the base is not a member of its power set"); return; }
+      sub.push_back(n + 3);
+      if (p.B().Contains(Factory::SetV(sub))) { c.Fail("C15", "membership", k + "/foreign", "a set with a foreign element is a member of the power set"); return; }
+      std::vector<StructuredData> seen; int cnt = 0;
+      for (const auto& e : p.B()) { if (++cnt > 6) break; if (!e.IsCollection() || !e.B().IsSubsetOrEq(b.B())) { c.Fail("C15", "iteration", k, "iteration of a power set yields something that is not a subset of the base"); return; } for (auto& s0 : seen) if (s0 == e) { c.Fail("C15", "iteration", k + "/repeat", "iteration of a power set yields an element twice"); return; } seen.push_back(e); }
     }
     else if (k == "Decartian") {
       std::vector<StructuredData> f; std::vector<const MV*> ms; std::vector<std::string> tys; size_t prod = 1; int anyLazy = 0;
